@@ -24,7 +24,7 @@ from ..flow import arg_origins, origins
 from ..mir import op_const, op_local, try_edges
 from ..util import POLL, agg_assigns, call_true_false_edges, polls, result_return_kinds, unreachable_without, where
 from . import crypto_tables as ct
-from .http_common import POST, SEND, fresh_nonce_rule, post_structure
+from .http_common import POST, SEND, fresh_nonce_rule, nonce_update_rule, post_structure
 
 LEVEL = "other"
 TECHNIQUE = ("provenance of the POST body/URL/nonce, must-pass-through of update_nonce on every exit of a received response, "
@@ -85,16 +85,7 @@ def check(ctx):
     R2 = ctx.rule("R2", "the nonce signed is the endpoint's current nonce; every received response refreshes it before any exit or retry; a missing nonce is fetched first")
     ctx.floor(R2, "update_nonce call in http::post", len(upd), 1)
     fresh_nonce_rule(ctx, R2)
-    for s in sends:
-        ok_e = [(t["bb"], tg) for t in try_edges(pb, [s.dest["l"]]) if not t["adt"].endswith("Poll") for tg in t["ok"]]
-        ctx.require(R2, bool(ok_e), s.where(), "the result of send() is tested", [POST, "send-untested"])
-        for (sb, tg) in ok_e:
-            r = pb.reachable([tg], removed_nodes=[u.bb for u in upd])
-            exits = set(pb.return_blocks()) | {s.bb} | {c.bb for c in pb.calls_to("acmed::http::check_status")}
-            hit = sorted(exits & r)
-            ctx.require(R2, not hit, where(pb, hit[0]) if hit else s.where(),
-                        "once a response arrived, update_nonce(endpoint, &response) runs before the status is examined, before any return and before the next transmission",
-                        [POST, "response-without-nonce-update"])
+    nonce_update_rule(ctx, R2)
     for u in upd:
         a = arg_origins(u, 1)
         ctx.require(R2, any(x.is_(*SEND) for x in a.calls) or a.via_any(*SEND), u.where(), "update_nonce reads the response of this transmission", [POST, "nonce-of-response"])
